@@ -1,7 +1,7 @@
 (* Proofs for C08 end to end: the lines of C07's reference log_rows2 satisfy the hypotheses of metric_correct
-   (a fingerprint stands for one label set, timestamps are not negative) for every pipeline without a drop stage,
-   so the planned metric SQL (LogqlMetricSem.sem) computes the reference stated over the stored data; with a drop
-   stage the statement is false (the fingerprint survives the drop: two series with one label set). *)
+   (a fingerprint stands for one label set, timestamps are not negative) for every pipeline of line filters, label
+   filters, json stages and drops, so the planned metric SQL (LogqlMetricSem.sem) computes the reference stated over
+   the stored data (a drop stage re-fingerprints the line since the repair of drop-keeps-fingerprint in /repo). *)
 From Coq Require Import List ZArith NArith QArith Qcanon String Bool Lia Permutation.
 From Qryn Require Import lib.Strs model.Sql model.Logql model.LogqlPlan model.SqlEval model.LogqlSem model.LogqlMetricSem
   model.LogqlMetricE2E proofs.LogqlMetricProofs.
@@ -20,37 +20,37 @@ Section E2E_PROOFS.
   Notation run := (run_stages re_match parse_float json_get hash_labels).
   Definition hashed (st : pstate) : Prop := p_fp st = hash_labels (p_labels st).
 
-  Lemma run_hashed : forall ppl line st st', no_drop ppl = true -> hashed st -> run ppl line st = Some st' -> hashed st'.
+  (* every relabelling stage (json parameters, drop) re-fingerprints the line with the hash of its new label map *)
+  Lemma run_hashed : forall ppl line st st', hashed st -> run ppl line st = Some st' -> hashed st'.
   Proof.
-    induction ppl as [|s r IH]; intros line st st' Hnd Hh Hr; cbn [run_stages] in Hr.
+    induction ppl as [|s r IH]; intros line st st' Hh Hr; cbn [run_stages] in Hr.
     - now inversion Hr; subst.
-    - cbn [no_drop forallb] in Hnd. apply andb_true_iff in Hnd. destruct Hnd as [Hs Hnd].
-      destruct s as [op v rl|f|fn ps|t| |l|ps]; try discriminate.
+    - destruct s as [op v rl|f|fn ps|t| |l|ps]; try discriminate.
       + destruct (line_ok _ _ _ _); [|discriminate]. eapply IH; eassumption.
       + destruct (lf_ok _ _ _ _); [|discriminate]. eapply IH; eassumption.
       + destruct fn; try discriminate. destruct (json_stage _ _ _ _ _) as [st1|] eqn:Ej; [|discriminate].
-        eapply IH; [exact Hnd| |exact Hr]. unfold json_stage in Ej. destruct (all_paths ps); [|discriminate].
+        eapply IH; [|exact Hr]. unfold json_stage in Ej. destruct (all_paths ps); [|discriminate].
         inversion Ej; subst. reflexivity.
+      + eapply IH; [|exact Hr]. reflexivity.
   Qed.
-  Lemma run_json_hashed : forall ppl line st st', no_drop ppl = true -> has_json ppl = true ->
+  Lemma run_relabel_hashed : forall ppl line st st', has_relabel ppl = true ->
     run ppl line st = Some st' -> hashed st'.
   Proof.
-    induction ppl as [|s r IH]; intros line st st' Hnd Hj Hr; [discriminate|]. cbn [run_stages] in Hr.
-    pose proof Hnd as Hnd0. cbn [no_drop forallb] in Hnd. apply andb_true_iff in Hnd. destruct Hnd as [Hs Hnd].
-    unfold has_json in Hj. cbn [existsb] in Hj.
+    induction ppl as [|s r IH]; intros line st st' Hj Hr; [discriminate|]. cbn [run_stages] in Hr.
+    unfold has_relabel in Hj. cbn [existsb] in Hj.
     destruct s as [op v rl|f|fn ps|t| |l|ps]; try discriminate.
     - destruct (line_ok _ _ _ _); [|discriminate]. eapply IH; eassumption.
     - destruct (lf_ok _ _ _ _); [|discriminate]. eapply IH; eassumption.
     - destruct fn; try discriminate. destruct (json_stage _ _ _ _ _) as [st1|] eqn:Ej; [|discriminate].
-      eapply run_hashed; [exact Hnd| |exact Hr]. unfold json_stage in Ej. destruct (all_paths ps); [|discriminate].
+      eapply run_hashed; [|exact Hr]. unfold json_stage in Ej. destruct (all_paths ps); [|discriminate].
       inversion Ej; subst. reflexivity.
+    - eapply run_hashed; [|exact Hr]. reflexivity.
   Qed.
-  Lemma run_plain : forall ppl line st st', no_drop ppl = true -> has_json ppl = false ->
+  Lemma run_plain : forall ppl line st st', has_relabel ppl = false ->
     run ppl line st = Some st' -> st' = st.
   Proof.
-    induction ppl as [|s r IH]; intros line st st' Hnd Hj Hr; cbn [run_stages] in Hr; [now inversion Hr|].
-    cbn [no_drop forallb] in Hnd. apply andb_true_iff in Hnd. destruct Hnd as [Hs Hnd].
-    unfold has_json in Hj. cbn [existsb] in Hj. apply orb_false_iff in Hj. destruct Hj as [Hj1 Hj].
+    induction ppl as [|s r IH]; intros line st st' Hj Hr; cbn [run_stages] in Hr; [now inversion Hr|].
+    unfold has_relabel in Hj. cbn [existsb] in Hj. apply orb_false_iff in Hj. destruct Hj as [Hj1 Hj].
     destruct s as [op v rl|f|fn ps|t| |l|ps]; try discriminate.
     - destruct (line_ok _ _ _ _); [|discriminate]. eapply IH; eassumption.
     - destruct (lf_ok _ _ _ _); [|discriminate]. eapply IH; eassumption.
@@ -82,20 +82,20 @@ Section E2E_PROOFS.
   Qed.
 
   (* the hypotheses of metric_correct hold of the lines of log_rows2 *)
-  Theorem base_consistent q c d : db_ok c d -> fp_of_labels_ok d -> no_drop (sel_pipeline q) = true ->
+  Theorem base_consistent q c d : db_ok c d -> fp_of_labels_ok d ->
     consistent (map mrow_of (log_rows2 re_match parse_float json_get hash_labels q c d)).
   Proof.
-    intros Hdb [Hfl Hnn] Hnd a b Ha Hb.
+    intros Hdb [Hfl Hnn] a b Ha Hb.
     apply in_map_iff in Ha. destruct Ha as [oa [<- Ha]]. apply in_map_iff in Hb. destruct Hb as [ob [<- Hb]].
     destruct (log_rows2_in _ _ _ _ Ha) as [x [sx [Hx [_ [Hrx ->]]]]].
     destruct (log_rows2_in _ _ _ _ Hb) as [y [sy [Hy [_ [Hry ->]]]]].
     cbn [mrow_of r_fp r_labels o_fp o_labels].
-    destruct (has_json (sel_pipeline q)) eqn:Ej.
-    - pose proof (run_json_hashed _ _ _ _ Hnd Ej Hrx) as Hhx. pose proof (run_json_hashed _ _ _ _ Hnd Ej Hry) as Hhy.
+    destruct (has_relabel (sel_pipeline q)) eqn:Ej.
+    - pose proof (run_relabel_hashed _ _ _ _ Ej Hrx) as Hhx. pose proof (run_relabel_hashed _ _ _ _ Ej Hry) as Hhy.
       unfold hashed in *. rewrite Hhx, Hhy. split.
       + intros E. apply hash_inj. apply Z2N.inj in E; [exact E|apply hash_nonneg|apply hash_nonneg].
       + now intros ->.
-    - apply (run_plain _ _ _ _ Hnd Ej) in Hrx. apply (run_plain _ _ _ _ Hnd Ej) in Hry. subst sx sy. cbn [p_fp p_labels].
+    - apply (run_plain _ _ _ _ Ej) in Hrx. apply (run_plain _ _ _ _ Ej) in Hry. subst sx sy. cbn [p_fp p_labels].
       destruct (series_labels_of c d x Hdb Hx) as [s1 [Hs1 [Hf1 ->]]].
       destruct (series_labels_of c d y Hdb Hy) as [s2 [Hs2 [Hf2 ->]]].
       destruct Hdb as [_ [Huniq _]]. split.
@@ -132,13 +132,13 @@ Section E2E_PROOFS.
      reference over exactly those lines. *)
   Theorem metric_correct_db c d s fin p base :
     analyze_m15 s = false -> plan_metric s fin = Some p -> script_ok s -> 0 < c_step_ns c ->
-    db_ok c d -> fp_of_labels_ok d -> 0 <= c_from_ns c -> no_drop (sel_pipeline (log_part s)) = true ->
+    db_ok c d -> fp_of_labels_ok d -> 0 <= c_from_ns c ->
     Permutation base (base_of re_match parse_float json_get hash_labels s c d) ->
     option_map (map strip) (sem fp to_float quantile_o varpop stddevpop p c base)
       = metric_ref to_float quantile_o varpop stddevpop s c (map entry_of base)
     /\ Permutation (map entry_of base) (map entry_of_out (log_lines re_match parse_float json_get hash_labels s c d)).
   Proof.
-    intros Ha Hp Hok Hs Hdb Hfl Hc Hnd Hperm. split.
+    intros Ha Hp Hok Hs Hdb Hfl Hc Hperm. split.
     - apply (metric_correct fp to_float quantile_o varpop stddevpop fp_inj c base s fin p Ha Hp Hok Hs).
       + eapply consistent_perm; [exact Hperm|]. now apply (base_consistent _ c d).
       + eapply nonneg_perm; [exact Hperm|]. now apply base_nonneg.
@@ -147,12 +147,12 @@ Section E2E_PROOFS.
   (* in table order the two sides are the same function of the stored data *)
   Corollary metric_correct_db_eq c d s fin p :
     analyze_m15 s = false -> plan_metric s fin = Some p -> script_ok s -> 0 < c_step_ns c ->
-    db_ok c d -> fp_of_labels_ok d -> 0 <= c_from_ns c -> no_drop (sel_pipeline (log_part s)) = true ->
+    db_ok c d -> fp_of_labels_ok d -> 0 <= c_from_ns c ->
     option_map (map strip) (sem fp to_float quantile_o varpop stddevpop p c (base_of re_match parse_float json_get hash_labels s c d))
       = metric_ref_db re_match parse_float json_get hash_labels to_float quantile_o varpop stddevpop s c d.
   Proof.
-    intros Ha Hp Hok Hs Hdb Hfl Hc Hnd.
-    destruct (metric_correct_db c d s fin p _ Ha Hp Hok Hs Hdb Hfl Hc Hnd (Permutation_refl _)) as [-> _].
+    intros Ha Hp Hok Hs Hdb Hfl Hc.
+    destruct (metric_correct_db c d s fin p _ Ha Hp Hok Hs Hdb Hfl Hc (Permutation_refl _)) as [-> _].
     unfold metric_ref_db. now rewrite entries_of_base.
   Qed.
 End E2E_PROOFS.
@@ -191,36 +191,32 @@ Proof.
     + intros s [<-|[<-|[]]]; cbn; lia.
 Qed.
 
-(* the faithful model with a drop stage: the SQL side reports TWO series with the one label set {a="b"}, the
-   reference over the same lines ONE (with both lines counted) - for every oracle *)
-Theorem metric_drop_refuted_proof :
-  forall re_match parse_float json_get hash_labels fp to_float quantile_o varpop stddevpop,
+(* the witness of the repaired finding drop-keeps-fingerprint (PlannerDrop kept the fingerprint of the stream: the SQL side
+   reported TWO series with the one label set {a="b"}): since the repair the drop re-fingerprints the line, and both sides
+   report ONE series counting both lines - for every oracle *)
+Theorem metric_drop_witness :
+  forall re_match parse_float json_get (hash_labels : LogqlSem.labels -> Z),
+  (forall a b, hash_labels a = hash_labels b -> a = b) -> (forall a, 0 <= hash_labels a) ->
+  forall (fp : lmap -> N) to_float quantile_o varpop stddevpop, (forall a b, fp a = fp b -> a = b) ->
   exists p, plan_metric dk_script true = Some p /\ analyze_m15 dk_script = false /\ script_ok dk_script /\
     db_ok dk_ctx dk_db /\ fp_of_labels_ok dk_db /\
     no_drop (sel_pipeline (log_part dk_script)) = false /\
-    option_map (map (fun r => (v_labels r, v_ts r)))
+    option_map (map (fun r => (v_labels r, v_ts r, this (v_val r))))
       (option_map (map strip) (sem fp to_float quantile_o varpop stddevpop p dk_ctx (base_of re_match parse_float json_get hash_labels dk_script dk_ctx dk_db)))
-      = Some [([("a", "b")]%string, 1700000000000000000); ([("a", "b")]%string, 1700000000000000000)] /\
-    option_map (map (fun r => (v_labels r, v_ts r)))
+      = Some [([("a", "b")]%string, 1700000000000000000, (2 # 5)%Q)] /\
+    option_map (map (fun r => (v_labels r, v_ts r, this (v_val r))))
       (metric_ref_db re_match parse_float json_get hash_labels to_float quantile_o varpop stddevpop dk_script dk_ctx dk_db)
-      = Some [([("a", "b")]%string, 1700000000000000000)].
+      = Some [([("a", "b")]%string, 1700000000000000000, (2 # 5)%Q)].
 Proof.
-  intros. eexists. split; [reflexivity|]. split; [reflexivity|]. split; [cbv; reflexivity|].
-  split; [apply dk_db_ok|]. split; [apply dk_db_ok|]. split; [reflexivity|]. split; vm_compute; reflexivity.
-Qed.
-
-Theorem metric_drop_refuted :
-  forall re_match parse_float json_get hash_labels fp to_float quantile_o varpop stddevpop,
-  exists p, plan_metric dk_script true = Some p /\ analyze_m15 dk_script = false /\ script_ok dk_script /\
-    0 < c_step_ns dk_ctx /\ 0 <= c_from_ns dk_ctx /\ db_ok dk_ctx dk_db /\ fp_of_labels_ok dk_db /\
-    option_map (map strip) (sem fp to_float quantile_o varpop stddevpop p dk_ctx (base_of re_match parse_float json_get hash_labels dk_script dk_ctx dk_db))
-    <> metric_ref_db re_match parse_float json_get hash_labels to_float quantile_o varpop stddevpop dk_script dk_ctx dk_db.
-Proof.
-  intros.
-  destruct (metric_drop_refuted_proof re_match parse_float json_get hash_labels fp to_float quantile_o varpop stddevpop)
-    as [p [Hp [Ha [Hok [Hdb [Hfl [_ [H1 H2]]]]]]]].
-  exists p. split; [exact Hp|]. split; [exact Ha|]. split; [exact Hok|]. split; [reflexivity|]. split; [cbn; lia|].
-  split; [exact Hdb|]. split; [exact Hfl|]. intros E. rewrite E, H2 in H1. discriminate.
+  intros re_match parse_float json_get hash_labels Hinj Hnn fp to_float quantile_o varpop stddevpop Hfp.
+  assert (Hp : exists p, plan_metric dk_script true = Some p) by (eexists; reflexivity). destruct Hp as [p Hp].
+  assert (Href : option_map (map (fun r => (v_labels r, v_ts r, this (v_val r))))
+      (metric_ref_db re_match parse_float json_get hash_labels to_float quantile_o varpop stddevpop dk_script dk_ctx dk_db)
+      = Some [([("a", "b")]%string, 1700000000000000000, (2 # 5)%Q)]) by (vm_compute; reflexivity).
+  exists p. split; [exact Hp|]. split; [reflexivity|]. split; [cbv; reflexivity|].
+  split; [apply dk_db_ok|]. split; [apply dk_db_ok|]. split; [reflexivity|]. split; [|exact Href].
+  rewrite (metric_correct_db_eq re_match parse_float json_get hash_labels Hinj Hnn fp to_float quantile_o varpop stddevpop Hfp
+             dk_ctx dk_db dk_script true p); [exact Href|reflexivity|exact Hp|cbv; reflexivity|reflexivity|apply dk_db_ok|apply dk_db_ok|cbn; lia].
 Qed.
 
 (* the hypotheses of metric_correct_db are met by sum by (a) (rate({a="b"} | json x="x" [5s]) > 1) over the two streams
@@ -228,12 +224,11 @@ Qed.
 Example metric_correct_db_hyp :
   analyze_m15 ex_script = false /\ (exists p, plan_metric ex_script true = Some p) /\ script_ok ex_script /\
   0 < c_step_ns dk_ctx /\ db_ok dk_ctx dk_db /\ fp_of_labels_ok dk_db /\ 0 <= c_from_ns dk_ctx /\
-  no_drop (sel_pipeline (log_part ex_script)) = true /\
   forall re_match parse_float json_get hash_labels,
     List.length (base_of re_match parse_float json_get hash_labels ex_script dk_ctx dk_db) = 2%nat.
 Proof.
   split; [reflexivity|]. split; [eexists; reflexivity|]. split; [cbv; reflexivity|]. split; [reflexivity|].
-  split; [apply dk_db_ok|]. split; [apply dk_db_ok|]. split; [cbn; lia|]. split; [reflexivity|].
+  split; [apply dk_db_ok|]. split; [apply dk_db_ok|]. split; [cbn; lia|].
   intros. vm_compute. reflexivity.
 Qed.
 
@@ -254,7 +249,7 @@ Section E2E_TOPK.
 
   Theorem topk_correct_db c d t fin p base :
     analyze_m15 (STopK t) = false -> plan_metric (STopK t) fin = Some p -> script_ok (tk_inner t) -> 0 < c_step_ns c ->
-    db_ok c d -> fp_of_labels_ok d -> 0 <= c_from_ns c -> no_drop (sel_pipeline (log_part (STopK t))) = true ->
+    db_ok c d -> fp_of_labels_ok d -> 0 <= c_from_ns c ->
     Permutation base (base_of re_match parse_float json_get hash_labels (STopK t) c d) ->
     match sem fp to_float quantile_o varpop stddevpop p c base with
     | Some out =>
@@ -264,7 +259,7 @@ Section E2E_TOPK.
     | None => inner_ref to_float quantile_o varpop stddevpop (tk_inner t) (map entry_of base) = None
     end.
   Proof.
-    intros Ha Hp Hok Hs Hdb Hfl Hc Hnd Hperm.
+    intros Ha Hp Hok Hs Hdb Hfl Hc Hperm.
     apply (topk_correct fp to_float quantile_o varpop stddevpop fp_inj c base t fin p Ha Hp Hok Hs).
     - eapply consistent_perm; [exact Hperm|]. now apply (base_consistent re_match parse_float json_get hash_labels hash_inj hash_nonneg _ c d).
     - eapply nonneg_perm; [exact Hperm|]. now apply base_nonneg.
